@@ -357,6 +357,9 @@ pub struct Hist {
     /// choices used to derive post-crash images (consumed in order)
     pub image: Vec<u32>,
     pub rng_seed: u64,
+    /// the clock advances by this many milliseconds on every reading (0 = only between steps)
+    #[serde(default)]
+    pub tick_ms: u32,
 }
 
 pub const EPOCH_2024_MS: u64 = 1_704_067_200_000;
@@ -366,8 +369,17 @@ pub struct VClock(pub Arc<Mutex<u64>>);
 
 impl emit::Clock for VClock {
     fn now(&self) -> Option<Timestamp> {
-        Timestamp::from_unix(Duration::from_millis(*self.0.lock().unwrap()))
+        let mut g = self.0.lock().unwrap();
+        let t = *g;
+        // a real clock moves between two readings: every reading advances the clock by the tick
+        *g += TICK.with(|t| t.get());
+        Timestamp::from_unix(Duration::from_millis(t))
     }
+}
+
+thread_local! {
+    /// milliseconds the virtual clock advances per reading (set per history by `run`)
+    pub static TICK: std::cell::Cell<u64> = const { std::cell::Cell::new(0) };
 }
 
 /// non-repeating pseudo-random ids (a bijective mix of a counter)
@@ -402,6 +414,8 @@ pub struct Attempt {
     pub batch: usize,
     pub attempt_no: u32,
     pub clock_ms: u64,
+    /// clock value when the attempt returned (>= clock_ms; differs only with a ticking clock)
+    pub clock_end_ms: u64,
     /// full event bytes (body + separator) submitted with this attempt
     pub events: Vec<Vec<u8>>,
     pub result: AttemptResult,
@@ -520,6 +534,7 @@ fn snapshot_durable(g: &FsState) -> BTreeMap<String, Vec<u8>> {
 
 /// Run a history against the real worker.
 pub fn run(h: &Hist) -> Run {
+    TICK.with(|t| t.set(h.tick_ms as u64));
     let sep: &'static [u8] = SEPS[h.cfg.sep as usize % SEPS.len()];
     let fs = Fs::default();
     let clock = VClock(Arc::new(Mutex::new(EPOCH_2024_MS + h.start_ms)));
@@ -673,11 +688,13 @@ pub fn run(h: &Hist) -> Run {
                         (g.log.len(), g.crashed, snapshot_durable(&g), listing, g.gen)
                     };
                     let was_panic = matches!(result, AttemptResult::Panic(_));
+                    let clock_end_ms = *clock.0.lock().unwrap();
                     run.attempts.push(Attempt {
                         step: si,
                         batch: batch_no,
                         attempt_no,
                         clock_ms,
+                        clock_end_ms,
                         events: remaining,
                         result: result.clone(),
                         ops: (op0, op1),
